@@ -144,6 +144,69 @@ fn chains(c: &mut Ctx, n: usize, flavor: Flavor) {
     }
 }
 
+// ------------------------------------------------------------------ object prefixes
+
+/// Positions rich in the moves whose make / unmake code is special (en passant, promotions with and without capture —
+/// also of a cornered rook whose side still has the right —, castlings, double steps), both colours, plus a few from the
+/// general mix. Used for the `restored` / `reached` object prefixes.
+fn object_positions(c: &mut Ctx, n_mix: usize) -> Vec<Pos> {
+    let mut ps: Vec<Pos> = Vec::new();
+    for fen in [
+        "r3k2r/1P4P1/8/8/8/8/1p4p1/R3K2R w KQkq - 0 1",
+        "r3k2r/1P4P1/8/8/8/8/1p4p1/R3K2R b KQkq - 0 1",
+        "rn2k1nr/1P4P1/8/3pP3/3Pp3/8/1p4p1/RN2K1NR w KQkq d6 0 1",
+        "rn2k1nr/1P4P1/8/3pP3/3Pp3/8/1p4p1/RN2K1NR b KQkq d3 0 1",
+        "nr5k/1P6/8/8/8/8/8/1K6 w - - 0 1",
+        "4n3/1k1P4/8/8/8/8/6PP/4r2K w - - 0 1",
+        "8/k1P5/2K5/8/8/8/8/8 w - - 0 1",
+        "7k/P7/8/8/8/8/8/K7 w - - 0 1",
+        "Q7/8/8/8/8/8/5k2/7K w - - 0 1",
+        "q6k/8/8/8/8/8/8/K7 b - - 0 1",
+        "4k3/8/8/3pP3/2K5/8/8/8 w - d6 0 1",
+        "8/8/8/K2pP2r/2P5/8/8/7k w - d6 0 1",
+        "7k/8/6b1/8/8/8/R1n5/3K4 w - - 0 1",
+        "4k3/8/8/8/8/8/8/4K2R w K - 0 1",
+        "r3k3/8/8/8/8/8/8/R3K3 b Qq - 0 1",
+        "r3k2r/8/8/8/8/8/8/R3K2R w KQkq - 0 1",
+    ] {
+        if let Ok(b) = owlchess::Board::from_fen(fen) {
+            ps.push(Pos { sent: *b.raw(), board: b, fam: "objects" });
+        }
+    }
+    ps.extend(posgen::f3a(false).into_iter().step_by(11));
+    ps.extend(posgen::f3d(false).into_iter().step_by(3));
+    ps.extend(posgen::f3e(false).into_iter().step_by(3));
+    ps.extend(posgen::f3_wrap());
+    ps.extend(posgen::mix_f1_f2(&mut c.rng, n_mix));
+    ps
+}
+
+/// `line` (a position case `<op> RAW …` of position `p`) asked again of other board OBJECTS: after making and
+/// un-making a special move (and the null move), and of the board a legal special move produced
+fn object_cases(c: &mut Ctx, p: &Pos, stream: &str, line: &str, k_restored: usize, k_reached: usize) {
+    let sm = semis(&p.board);
+    let mut special: Vec<Move> = sm.iter().copied().filter(|m| posgen::is_interesting(&p.board, m)).collect();
+    // promotions first (their undo is the most intricate), then the rest in a seeded order
+    special.sort_by_key(|m| (m.kind() as u8) < 6);
+    let tail = special.iter().position(|m| (m.kind() as u8) < 6).unwrap_or(special.len());
+    c.rng.shuffle(&mut special[tail..]);
+    let legal = true_legal_moves(&p.board);
+    c.case(&format!("restored {}", stream), &format!("restored 0.0.0.0 {}", line));
+    let mut quiet: Vec<Move> = sm.iter().copied().filter(|m| !posgen::is_interesting(&p.board, m)).collect();
+    c.rng.shuffle(&mut quiet);
+    for m in special.iter().take(k_restored).chain(quiet.iter().take(1)) {
+        c.case(&format!("restored {}", stream), &format!("restored {} {}", mv_fmt(m), line));
+    }
+    let mut n = 0;
+    for m in special.iter().filter(|m| legal.contains(m)) {
+        if n >= k_reached {
+            break;
+        }
+        n += 1;
+        c.case(&format!("reached {}", stream), &format!("reached {} {}", mv_fmt(m), line));
+    }
+}
+
 // ------------------------------------------------------------------ properties
 
 fn c01(c: &mut Ctx) {
@@ -180,6 +243,14 @@ fn c01(c: &mut Ctx) {
             "legalunchecked",
             &format!("legalunchecked {} {}", raw, mv4_fmt(t)),
         );
+    }
+    // the generators asked of board objects that a make / unmake has touched
+    for p in object_positions(c, 60) {
+        c.pos(&p);
+        let raw = p.raw_text();
+        object_cases(c, &p, "gen", &format!("gen {} 0 1", raw), 6, 3);
+        object_cases(c, &p, "gen", &format!("gen {} 0 0", raw), 2, 1);
+        object_cases(c, &p, "gen", &format!("gen {} 1 1", raw), 2, 1);
     }
 }
 
@@ -324,6 +395,18 @@ fn c02(c: &mut Ctx) {
     }
     let nc = c.vol(150, 15.0);
     chains(c, nc, Flavor::PushPop);
+    // acceptance asked of board objects that a make / unmake has touched (a refused push rolls back in place)
+    for p in object_positions(c, 30) {
+        c.pos(&p);
+        let raw = p.raw_text();
+        let sm = semis(&p.board);
+        for m in sm.iter().filter(|m| posgen::is_interesting(&p.board, m)).take(4) {
+            object_cases(c, &p, "makelike move", &format!("makelike {} move {}", raw, mv_fmt(m)), 3, 1);
+        }
+        if let Some(m) = sm.first() {
+            object_cases(c, &p, "makelike ucistr", &format!("makelike {} ucistr {}", raw, str_enc(&m.to_string())), 3, 1);
+        }
+    }
 }
 
 fn c03_positions(c: &mut Ctx, n: usize) -> Vec<Pos> {
@@ -348,6 +431,15 @@ fn c03(c: &mut Ctx) {
         for m in true_legal_moves(&p.board) {
             c.mv_stat(&m);
             c.case("make", &format!("make {} {}", raw, mv_fmt(&m)));
+        }
+    }
+    // applying a move to a board object that an earlier make / unmake has touched
+    for p in object_positions(c, 30) {
+        c.pos(&p);
+        let raw = p.raw_text();
+        let sm = semis(&p.board);
+        for m in sm.iter().filter(|m| posgen::is_interesting(&p.board, m)).take(3).chain(sm.iter().take(2)) {
+            object_cases(c, &p, "make", &format!("make {} {}", raw, mv_fmt(m)), 3, 1);
         }
     }
 }
@@ -419,6 +511,17 @@ fn c06(c: &mut Ctx) {
             c.case("gen", &format!("gen {} {} 0", raw, which));
         }
     }
+    // generation and validation asked of board objects that a make / unmake has touched
+    for p in object_positions(c, 30) {
+        c.pos(&p);
+        let raw = p.raw_text();
+        object_cases(c, &p, "gen", &format!("gen {} 0 0", raw), 6, 2);
+        object_cases(c, &p, "semibulk", &format!("semibulk {}", raw), 2, 1);
+        let sm = semis(&p.board);
+        for m in sm.iter().take(3) {
+            object_cases(c, &p, "mvalidate", &format!("mvalidate {} {}", raw, mv_fmt(m)), 3, 0);
+        }
+    }
 }
 
 fn c07(c: &mut Ctx) {
@@ -460,6 +563,11 @@ fn c07(c: &mut Ctx) {
         c.pos(&p);
         c.st.bump(&format!("finisher_{}", class));
         c.case("outcomeafter", &format!("outcomeafter {} {}", p.raw_text(), mv_fmt(&m)));
+    }
+    // classification asked of board objects that a make / unmake has touched
+    for p in object_positions(c, 60) {
+        c.pos(&p);
+        object_cases(c, &p, "outcome", &format!("outcome {}", p.raw_text()), 6, 3);
     }
 }
 
@@ -684,6 +792,18 @@ fn c09(c: &mut Ctx) {
     for s in &all_strings {
         c.str_case("sanparse", "sanparse ", s, "");
     }
+    // notation asked of board objects that a make / unmake has touched
+    for p in object_positions(c, 30) {
+        c.pos(&p);
+        let raw = p.raw_text();
+        let lm = true_legal_moves(&p.board);
+        for m in lm.iter().take(6) {
+            object_cases(c, &p, "sanof", &format!("sanof {} {}", raw, mv_fmt(m)), 3, 1);
+            if let Some(t) = san_of(&p.board, *m) {
+                object_cases(c, &p, "saninto", &format!("saninto {} {}", raw, str_enc(&t)), 2, 1);
+            }
+        }
+    }
 }
 
 fn has_special(b: &Board) -> bool {
@@ -791,6 +911,15 @@ fn c10(c: &mut Ctx) {
         }
     }
     c.case("ucifmt", "ucifmt 0.0.0.0");
+    // move readers asked of board objects that a make / unmake has touched
+    for p in object_positions(c, 30) {
+        c.pos(&p);
+        let raw = p.raw_text();
+        let sm = semis(&p.board);
+        for m in sm.iter().take(8) {
+            object_cases(c, &p, "uciinto", &format!("uciinto {} {} legal", raw, str_enc(&m.to_string())), 3, 1);
+        }
+    }
 }
 
 fn c11(c: &mut Ctx) {
